@@ -7,9 +7,14 @@ Line-protocol driver for the C08 model.
 serve <legacy> <transport> <cfgMax> <idleMs> <draw> <slack>
       <reqOpt 0|1> <reqSize> <reqDo> <reqOpts>
       <tc> <q> <unc> <ans> <ns> <extra> <ns2> <extra2>
-      <respOpt 0|1> <size> <extRcode> <version> <do> <z> <opts>
+      <respOpt 0|1> <size> <extRcode> <version> <do> <z> <opts> <rcodeHi> <tsig>
+respond <legacy> <transport> <cfgMax> <idleMs> <draw> <slack> <draw2>
+      <hdrResponse> <opcode> <nq> <nans> <nns> <qe>
+      <reqOpt 0|1> <reqSize> <reqDo> <reqOpts>
+      <wrote|silent|failed0|failed1> <the 17 response fields of `serve` (ignored unless `wrote`)>
 maxsize <isUdp> <edns> <cap>
 ```
+`respond` answers `none` when nothing reaches the wire.
 Lists are comma separated, `_` is the empty list; options are `code:len`.
 Answer: `ka kn ke tc opt size ext ver do z opts len wire emitted`.
 -/
@@ -43,18 +48,46 @@ def mkOpt (present size ext ver dobit z opts : String) : Option Opt :=
            z := nat! z, opts := parseOpts opts }
   else none
 
+def showOut (o : Out) : String :=
+  s!"{o.cut.ka} {o.cut.kn} {o.cut.ke} {showB o.cut.tc} {showOpt o.opt} {o.len} {o.wire} {showB o.emitted}"
+
+def mkResp (tc q unc ans ns extra ns2 extra2 po psize pext pver pdo pz popts rhi tsig : String) : Resp :=
+  { tc := bool! tc, q := nat! q, unc := nat! unc, ans := parseList ans,
+    ns := parseList ns, extra := parseList extra, ns2 := parseList ns2,
+    extra2 := parseList extra2, opt := mkOpt po psize pext pver pdo pz popts,
+    rcodeHi := nat! rhi, tsig := bool! tsig }
+
 def step (s : Unit) : List String → Unit × String
   | ["serve", legacy, t, cfgMax, idle, draw, slack, ro, rsize, rdo, ropts,
-     tc, q, unc, ans, ns, extra, ns2, extra2, po, psize, pext, pver, pdo, pz, popts] =>
+     tc, q, unc, ans, ns, extra, ns2, extra2, po, psize, pext, pver, pdo, pz, popts, rhi, tsig] =>
     match parseT t with
     | none => (s, "bad-op")
     | some t =>
       let req := mkOpt ro rsize "0" "0" rdo "0" ropts
-      let r : Resp := { tc := bool! tc, q := nat! q, unc := nat! unc, ans := parseList ans,
-                        ns := parseList ns, extra := parseList extra, ns2 := parseList ns2,
-                        extra2 := parseList extra2, opt := mkOpt po psize pext pver pdo pz popts }
-      let o := serveG (bool! legacy) t (nat! cfgMax) (nat! idle) req r (nat! draw) (nat! slack)
-      (s, s!"{o.cut.ka} {o.cut.kn} {o.cut.ke} {showB o.cut.tc} {showOpt o.opt} {o.len} {o.wire} {showB o.emitted}")
+      let r := mkResp tc q unc ans ns extra ns2 extra2 po psize pext pver pdo pz popts rhi tsig
+      (s, showOut (serveG (bool! legacy) t (nat! cfgMax) (nat! idle) req r (nat! draw) (nat! slack)))
+  | "respond" :: legacy :: t :: cfgMax :: idle :: draw :: slack :: draw2 :: hresp :: opc :: nq ::
+      nans :: nns :: qe :: ro :: rsize :: rdo :: ropts :: hk :: rest =>
+    match parseT t, rest with
+    | some t, [tc, q, unc, ans, ns, extra, ns2, extra2, po, psize, pext, pver, pdo, pz, popts, rhi, tsig] =>
+      let req := mkOpt ro rsize "0" "0" rdo "0" ropts
+      let hdr : QHdr := { response := bool! hresp, opcode := nat! opc, nq := nat! nq,
+                          nans := nat! nans, nns := nat! nns }
+      let h : Option Handler :=
+        if hk == "wrote" then
+          some (.wrote (mkResp tc q unc ans ns extra ns2 extra2 po psize pext pver pdo pz popts rhi tsig))
+        else if hk == "silent" then some .silent
+        else if hk == "failed0" then some (.failed false)
+        else if hk == "failed1" then some (.failed true)
+        else none
+      match h with
+      | none => (s, "bad-op")
+      | some h =>
+        match respondG (bool! legacy) t (nat! cfgMax) (nat! idle) hdr (nat! qe) req h (nat! draw)
+            (nat! slack) (nat! draw2) with
+        | none => (s, "none")
+        | some o => (s, showOut o)
+    | _, _ => (s, "bad-op")
   | ["maxsize", isUdp, edns, cap] =>
     (s, toString (maxDNSSize (bool! isUdp) (nat! edns) (nat! cap)))
   | _ => (s, "bad-op")
